@@ -169,6 +169,9 @@ func c08Retained(p rtp.Payloader) ([][]byte, bool) {
 // c08Instance runs one instance twin pair over the inputs.
 func c08Instance(c *fw.Ctx, kind c08Kind, mtu int, inputs [][]byte, inKinds []string) {
 	a, b := kind.mk(), kind.mk()
+	other := kind.mk() // an unrelated stream of the same kind, interleaved: instances must not share buffers
+	var returnedA [][][]byte
+	var returnedACopy [][][]byte
 	if kind.codec == "vp8" || kind.codec == "vp9" {
 		// instances that have already sent frames: descriptor sizes change with the running picture id (7 -> 15 bit at 128)
 		warm := []int{0, 0, 126, 127, 128}[len(inputs)%5]
@@ -223,6 +226,30 @@ func c08Instance(c *fw.Ctx, kind c08Kind, mtu int, inputs [][]byte, inKinds []st
 		}
 		c.Evals(2)
 		c.Count("payload_calls_judged", 2)
+		{
+			cp := make([][]byte, len(outA))
+			for k, f := range outA {
+				cp[k] = append([]byte(nil), f...)
+			}
+			returnedA, returnedACopy = append(returnedA, outA), append(returnedACopy, cp)
+			// the unrelated stream: different bytes, same shape
+			oin := append([]byte(nil), pristineOf(in)...)
+			for k := range oin {
+				oin[k] ^= 0x5A
+			}
+			if len(oin) > 0 && kind.codec != "audio" {
+				oin[0] = in[0] // keep the leading structure byte so that the other stream takes the same code path
+			}
+			fw.Guard(func() { other.Payload(uint16(mtu), oin) })
+			for ci := range returnedA {
+				for k := range returnedA[ci] {
+					if !bytes.Equal(returnedA[ci][k], returnedACopy[ci][k]) {
+						c.Fail("C08/"+kind.name+"/returned-fragment-changes-when-another-instance-is-used", fmt.Sprintf("fragment %d returned by call %d of one instance changed after a Payload call on ANOTHER instance of the same payloader", k, ci), wit(call))
+						return
+					}
+				}
+			}
+		}
 		// input untouched
 		if !bytes.Equal(inA, pristine) || !bytes.Equal(inB, pristine) {
 			c.Fail("C08/"+kind.name+"/input-modified", "the payloader modified the caller's input buffer", wit(call))
@@ -486,3 +513,5 @@ func c08Race(c *fw.Ctx, i int) {
 	c.Shapef("race|%s", kind.name)
 	_ = ref.ExtNone
 }
+
+func pristineOf(b []byte) []byte { return b }
